@@ -513,13 +513,21 @@ def r12_derived_writers_mirror_their_readers(ctx):
     R.floor("C15.R12", n, 6, "derived Serialize impls of wire types")
 
 
+def r13_request_decoder_is_plain(ctx):
+    """`parsing the text back yields an equal value`: the Request / Notification decoders are the plain derived ones - a
+    hook on a member (`params: []` normalised to absent, scalars refused) makes the parsed value differ from the one that
+    was serialised (= C01.R8)"""
+    from . import c01
+    c01.r8_classifiers_are_plain(ctx)
+
+
 def rids_wire_ids_derive_both(ctx):
     """ids are serialised and parsed by mirror-image (derived) impls"""
     from .common import wire_ids_derive_both
     wire_ids_derive_both(ctx, "C15.IDS")
 
 
-RULES = [r1_code_tables, r2_serializer, r3_field_tables, r4_duplicate_guards, r5_acceptance_table, r6_no_handmade_json, r7_no_borrowed_str, r8_into_owned_is_fieldwise, r9_client_tries_response_first, r10_http_errors_keep_the_envelope, r11_subscription_id_numbers_are_u64, r12_derived_writers_mirror_their_readers, rids_wire_ids_derive_both]
+RULES = [r1_code_tables, r2_serializer, r3_field_tables, r4_duplicate_guards, r5_acceptance_table, r6_no_handmade_json, r7_no_borrowed_str, r8_into_owned_is_fieldwise, r9_client_tries_response_first, r10_http_errors_keep_the_envelope, r11_subscription_id_numbers_are_u64, r12_derived_writers_mirror_their_readers, r13_request_decoder_is_plain, rids_wire_ids_derive_both]
 
 LEVEL_TEXT = (
     "Decision tables and structural facts extracted exactly from the type-checked serde code: the error-code tables are "
